@@ -150,6 +150,10 @@ def judge_pair(name, a, tier):
                 if attr in out and not L.valid_text(out[attr], True):
                     found.append(('invalid-attribute-value-accepted:%s' % route, '%s=%r via %s emitted %r' % (attr, v, route, out.get(attr))))
                     break
+                if attr not in out:
+                    # neither an error nor a stored attribute: the assignment was silently ignored
+                    found.append(('invalid-attribute-value-silently-ignored:%s' % route, '%s=%r via %s: no error, attribute absent from the output' % (attr, v, route)))
+                    break
             elif hist.classify_exception(ex, 'ATTR'):
                 found.append(('internal-error:%s:%s' % (route, exc), '%s=%r: %s' % (attr, v, str(ex)[:100])))
                 break
